@@ -46,6 +46,9 @@ func (bl *Bases) UnmarshalXML(d *xml.Decoder, start xml.StartElement) error {
 
 	arr := make([]*big.Int, t.Num)
 	for i := range arr {
+		if t.Bases[i].XMLName.Local != "Base_"+strconv.Itoa(i) {
+			return fmt.Errorf("Bases element %d is named %s instead of Base_%d", i, t.Bases[i].XMLName.Local, i)
+		}
 		b, ok := new(big.Int).SetString(t.Bases[i].Bigint, 10)
 		if !ok {
 			return fmt.Errorf("Bases element %d was not a base 10 integer", i)
